@@ -239,6 +239,27 @@ func ruleOptFlow(rule string) RuleFn {
 				c.Check(hit == nil, rule, "newResultObjectField hands the options to "+an.CalleeName(k), "with a non-empty As list the result is rebuilt by a call that receives the options", "the result built by "+an.CalleeName(k)+" for a result-object field never sees the constructor's options: dig.As given next to a field of this kind is silently dropped, although the same registration written with the option form (dig.Group + dig.As) honours it", k, nil)
 			}
 			c.Floor(rule, "result-building calls in newResultObjectField", len(builders), 2)
+			// a group-tagged field that is rebuilt through the option form carries its group: on the group-tag path,
+			// newResult is reached only after opts.Group was set from the tag
+			tagEdges := an.EdgesWhere(fn, func(ft an.Fact) bool {
+				return ft.S == "(p:f.Tag.Get(\"group\") != \"\")" || ft.S == "!(p:f.Tag.Get(\"group\") == \"\")" || ft.S == "(len(p:f.Tag.Get(\"group\")) > 0)"
+			})
+			var setGroup []ssa.Instruction
+			an.Instrs(fn, func(in ssa.Instruction) {
+				if st, ok := in.(*ssa.Store); ok {
+					if fa, ok := st.Addr.(*ssa.FieldAddr); ok && an.FieldName(fa.X.Type(), fa.Field) == "Group" && strings.Contains(an.Norm(st.Val), ".Tag.Get(\"group\")") {
+						setGroup = append(setGroup, in)
+					}
+				}
+			})
+			for _, e := range tagEdges {
+				start := e.From.Succs[e.Succ].Instrs[0]
+				hit, _ := an.PathTo(fn, start, func(i ssa.Instruction) bool {
+					k, ok := i.(ssa.CallInstruction)
+					return ok && an.CalleeName(k) == "dig.newResult"
+				}, an.NewGates().AddInstr(setGroup...))
+				c.Check(hit == nil, rule, "a group-tagged field rebuilt through newResult carries its group", "opts.Group = tag before newResult on the group-tag path", "a group-tagged result-object field reaches newResult without its group: with dig.As the value is registered as a single value of the interface instead of a member of the group", hit, nil)
+			}
 		}
 		// As is iterated where results are made
 		for _, nm := range []string{"dig.newResultSingle", "dig.newResult"} {
